@@ -9,7 +9,9 @@
      ToLower against ASCII words, color.ColorHexRegex, go2.Contains(color.NamedColors, _),
      d2themescatalog.Find(_) == Theme{}.
    Go nil dereferences are explicit [Crash site] results.  Two variants are kept side by side:
-   [Pinned] is the code as it is, [Fixed] is the code after coq/C07/fix.patch.
+   [Fixed] is the code of /repo (since commit 9d408296b, = coq/C07/fix.patch): it is what [compile_config]
+   means and what the harness compares the linked code with.  [Pinned] is the code before that commit;
+   it is kept only for the historical refutation lemmas (where and on which inputs it crashed).
 
    Not modelled: d2compiler.compileIR runs between the two stages and can add errors of its own
    (class 0, "other"); substitution resolution, imports, globs (the IR value handed to the model is the
